@@ -88,7 +88,17 @@ func ingestAPI(seed int64) (fails []childFail) {
 				if g1.Status != 200 || info.DestName != name {
 					fail("ingest:info", fmt.Sprintf("GET /api/cmaf-ingests/%s -> %d destName %q, created with %q", cr.ID, g1.Status, info.DestName, name))
 				}
-				_ = ls.Do("GET", "/api/cmaf-ingests/"+cr.ID+"/step", nil, nil)
+				// the step handler blocks on an unbuffered channel until the session goroutine takes the
+				// trigger (for ever if the session has ended): give it half a second
+				stepped := make(chan struct{})
+				go func() {
+					_ = ls.Do("GET", "/api/cmaf-ingests/"+cr.ID+"/step", nil, nil)
+					close(stepped)
+				}()
+				select {
+				case <-stepped:
+				case <-time.After(500 * time.Millisecond):
+				}
 				d := ls.Do("DELETE", "/api/cmaf-ingests/"+cr.ID, nil, nil)
 				if d.Status/100 != 2 {
 					fail("ingest:delete", fmt.Sprintf("DELETE /api/cmaf-ingests/%s -> %d", cr.ID, d.Status))
@@ -241,7 +251,7 @@ func parseRaces(stderr string) [][2]string {
 // runChild runs one child (plain or -race build) and converts what it found into failures.
 func runChild(c *lib.Ctx, exe string, race bool, in childIn, id string) (pairs [][2]string) {
 	arg, _ := json.Marshal(in)
-	ctx, cancel := context.WithTimeout(context.Background(), 900*time.Second)
+	ctx, cancel := context.WithTimeout(context.Background(), 240*time.Second)
 	defer cancel()
 	cmd := exec.CommandContext(ctx, exe, "racechild", string(arg))
 	cmd.Env = append(os.Environ(), "GORACE=exitcode=0 halt_on_error=0 history_size=3")
